@@ -267,13 +267,21 @@ fn capi_instant(ctx: &mut Ctx, tz: Tz, secs: i64, nanos: u32, want: &MDateTime, 
                 let lt = Box::into_raw(haystack_value_init());
                 let r1 = haystack_value_get_datetime_date(p, false, ld);
                 let r2 = haystack_value_get_datetime_time(p, false, lt);
+                // ... and the UTC date/time of the same instant
+                let ud = Box::into_raw(haystack_value_init());
+                let ut = Box::into_raw(haystack_value_init());
+                let r3 = haystack_value_get_datetime_date(p, true, ud);
+                let r4 = haystack_value_get_datetime_time(p, true, ut);
+                let utc_parts = (crate::bridge::observe(&*ud), crate::bridge::observe(&*ut), format!("{r3:?}{r4:?}"));
+                haystack_value_destroy(ud);
+                haystack_value_destroy(ut);
                 let zn = haystack_value_get_datetime_timezone(p);
                 let zs = if zn.is_null() { String::new() } else { let z = CStr::from_ptr(zn).to_string_lossy().to_string(); haystack_string_destroy(zn as *mut _); z };
                 let local = (crate::bridge::observe(&*ld), crate::bridge::observe(&*lt), format!("{r1:?}{r2:?}"));
                 for q in [ld, lt, p] {
                     haystack_value_destroy(q);
                 }
-                Ok((got, local, zs))
+                Ok((got, local, zs, utc_parts))
             }
         };
         haystack_value_destroy(date);
@@ -284,7 +292,15 @@ fn capi_instant(ctx: &mut Ctx, tz: Tz, secs: i64, nanos: u32, want: &MDateTime, 
     match r {
         Err(p) => ctx.violation(&format!("c-api:{}", panic_sig(&p)), &p.msg, json!({"zone": tz.name(), "secs": secs})),
         Ok(Err(e)) => ctx.violation(&format!("c-api:rejected:{}", class_of(want)), &format!("{e} for instant {secs} in {}", tz.name()), json!({})),
-        Ok(Ok((got, (ld, lt, rr), zs))) => {
+        Ok(Ok((got, (ld, lt, rr), zs, (ud, ut, ur)))) => {
+            {
+                let (uy, um, udd) = civil_from_days(secs.div_euclid(86400));
+                let want_d = crate::model::MVal::Date(uy as i32, um, udd);
+                let want_t = crate::model::MVal::Time(sod / 3600, (sod / 60) % 60, sod % 60, nanos);
+                if ud != want_d || ut != want_t || ur != "TRUETRUE" {
+                    ctx.violation(&format!("c-api:get_datetime_utc:{}", class_of(want)), &format!("UTC date/time getters give {} {} ({ur}), expected {} {}", ud.show(), ut.show(), want_d.show(), want_t.show()), json!({"zone": tz.name(), "secs": secs}));
+                }
+            }
             match got {
                 Some(g) if g == *want => {}
                 other => ctx.violation(&format!("c-api:make_tz_datetime:{}", class_of(want)), &format!("instant {secs}.{nanos:09} in {} gives {:?}, expected {:?}", tz.name(), other, want), json!({})),
